@@ -424,6 +424,13 @@ impl Lock {
         self.cases += 1;
         if self.cases % 1024 == 0 {
             io_background(&mut self.cpu, &mut self.mem, self.cases / 1024);
+            // so does the exit address the loader would have recorded (only run() may look at it)
+            let k = self.cases / 1024;
+            self.cpu.exit_addr = match k % 3 {
+                0 => 0,
+                1 => 0x416900 + ((k as u32).wrapping_mul(0x9e37) & 0xfffe),
+                _ => (k as u32).wrapping_mul(0x9e3779b1) & 0xff_fffe,
+            };
         }
         let obs = self.run_inner(c, action);
         self.ring.push((c.clone(), action));
@@ -676,6 +683,7 @@ impl Sess {
     }
     pub fn io_background(&mut self, pattern: u64) {
         io_background(&mut self.cpu, &mut self.mem, pattern);
+        self.cpu.exit_addr = if pattern % 3 == 0 { 0 } else { 0x416900 + ((pattern as u32) & 0xfffe) };
     }
     pub fn set_regs(&mut self, r: &Regs) {
         set_real_regs(&mut self.cpu, r);
